@@ -322,7 +322,29 @@ _log_target_format_static(int32_t target, const char * format,
 			}
 			if (p != &format[percent_buffer_idx] &&
 			    cutoff > QB_LOG_STATIC_FIELD_MAX) {
-				cutoff = QB_LOG_STATIC_FIELD_MAX;
+				if (ralign) {
+					/*
+					 * Only the first QB_LOG_STATIC_FIELD_MAX
+					 * characters of the field can ever be seen,
+					 * that is its padding and what follows it
+					 * of the text, not the end of the text.
+					 */
+					size_t plen = QB_MIN(strlen(p), cutoff);
+					size_t pad = cutoff - plen;
+
+					if (pad >= QB_LOG_STATIC_FIELD_MAX) {
+						p = "";
+					} else {
+						/* left aligned from here on: pad first */
+						len = _strcpy_cutoff(output_buffer + output_buffer_idx,
+								     "", pad, QB_FALSE,
+								     (output_len - output_buffer_idx));
+						output_buffer_idx += len;
+						ralign = QB_FALSE;
+						cutoff = QB_LOG_STATIC_FIELD_MAX - pad;
+					}
+				}
+				cutoff = QB_MIN(cutoff, QB_LOG_STATIC_FIELD_MAX);
 			}
 			len = _strcpy_cutoff(output_buffer + output_buffer_idx,
 					     p, cutoff, ralign,
